@@ -253,11 +253,14 @@ theorem nameSectionLoop_footprint (endRem : Int) : ∀ fuel (m : RawModule),
           (J := fun x => eraseOwn "wasmReadCustomSection" x = eraseOwn "wasmReadCustomSection" m) ?_ ?_) bs m' rest
       · refine ok_ite (fun _ => ?_) fun _ => ok_bind fun _ => ok_pure rfl
         unfold functionNamesSubsection
-        refine ok_bind fun n => ok_ite (fun _ => ok_undefined _) fun _ => ok_bind fun names => ?_
+        refine ok_bind fun n => ?_
         split
-        · exact ok_pure rfl
-        · exact ok_fail _
         · exact ok_undefined _
+        · refine ok_bind fun names => ?_
+          split
+          · exact ok_pure rfl
+          · exact ok_fail _
+          · exact ok_undefined _
       · intro a ha; rw [← ha]; exact ih a
 
 /-- **section_footprint** (the other half of "absent means empty"): the reader of a section changes only the
